@@ -60,7 +60,7 @@ META = dict(
                                            'observer that is not dummy right after the opening lead (what the bundled client does)'],
     rule='feasible paths of the pair (full game, observer) on one symbolic play',
     explanation='product inductive step over bit-set hands',
-    required_outcomes=['both accepted', 'observer refused', 'network replicas compared'],
+    required_outcomes=[('both accepted', 'H1 not applicable'), ('observer refused', 'H1 not applicable'), 'network replicas compared'],
 )
 
 
